@@ -53,6 +53,7 @@ type WorkerOut struct {
 
 type DirectedOut struct {
 	Violation *Violation `json:"violation,omitempty"`
+	Cut       string     `json:"cut,omitempty"` // a directed scenario that ended early (a refused commit, ...) - reported, never a verdict
 	Trace     *Trace     `json:"trace"`
 }
 
@@ -118,6 +119,9 @@ func TestWorker(t *testing.T) {
 			d := DirectedOut{Trace: tr}
 			if res != nil {
 				d.Violation = res.Violation
+				if res.Violation == nil && res.Cut != nil {
+					d.Cut = res.Cut.Error()
+				}
 			}
 			out.Directed = append(out.Directed, d)
 		}
